@@ -12,12 +12,23 @@
 //	check <expected-hex> <pw-hex> <want>  -> true | false | PANIC                   (want = accept|reject|any: what the
 //	                                         property says about this pair; judged by P-hat, ignored by the model)
 //
+//	retain <p1> <s1> <p2> <s2>            -> "hex(h1) hex(h2)": h1 := Fcrypt(p1,s1) is RETAINED (not copied) while
+//	                                         h2 := Fcrypt(p2,s2) runs, and printed afterwards | PANIC
+//	checkfc <p> <s> <q> <want>            -> CheckPasswd(h, q) with h the slice Fcrypt(p,s) returned, not copied
+//	conc <n> <seed>                       -> "done": n goroutines each Fcrypt + yield + compare the retained slice
+//	                                         with the libc hash computed beforehand (judged by P-hat only)
+//
+// The model is a pure function: results share no state.  retain / checkfc / conc tie exactly that purity — a
+// returned hash must not change when Fcrypt is called again (an output buffer that is reused or pooled breaks it
+// although every single call returns the right bytes).
+//
 // P-hat (independent of the model):
 //
 //	des:mismatch-libc          Fcrypt(p, s) differs from libc crypt(3) for an alphabet salt (13 chars + NUL)
 //	check:disagrees-libc       CheckPasswd(h, p) differs from "libc crypt(p, h[:2]) == h" for a well-formed DES hash h
 //	check:own-hash-rejected    CheckPasswd(GenPasswd(p), p) is not true for p[0] != 0; or a pair tagged accept is rejected
 //	check:wrong-key-accepted   a pair whose effective DES keys differ is accepted (sampled clause (d))
+//	alias:retained-hash-changed   a hash returned by Fcrypt changed after a later Fcrypt / CheckPasswd call
 //	crash:fcrypt|genpasswd|checkpasswd   a panic / stall inside the property's domain (GenPasswd: any password)
 //	gen:empty-not-zero-hash    GenPasswd of an empty / NUL-first password is not the all-zero hash
 package main
@@ -27,8 +38,10 @@ import (
 	"fmt"
 	"math/rand"
 	"os"
+	"runtime"
 	"strconv"
 	"strings"
+	"sync"
 
 	"github.com/Ptt-official-app/go-pttbbs/cmbbs"
 	"github.com/Ptt-official-app/go-pttbbs/crypt"
@@ -190,6 +203,126 @@ func exec(line string, nontrivial bool) (out string, idx int) {
 			if want := libcCrypt(p, s); hx.Hex(append([]byte(want), 0)) != out {
 				run.Fail(idx, "des:mismatch-libc", fmt.Sprintf("Fcrypt(%q, %q) = %q, libc crypt(3) = %q", p, s, hx.UnHex(out), want))
 			}
+		}
+		return
+	case "retain":
+		if len(ws) != 5 {
+			return bad()
+		}
+		p1, s1, p2, s2 := hx.UnHex(ws[1]), hx.UnHex(ws[2]), hx.UnHex(ws[3]), hx.UnHex(ws[4])
+		var snap1 []byte
+		var h1, h2 []byte
+		out = hx.Call(func() string {
+			a, err := crypt.Fcrypt(append([]byte{}, p1...), append([]byte{}, s1...))
+			if err != nil {
+				return "err"
+			}
+			snap1 = append([]byte{}, a...) // what the first call returned, at the time it returned
+			b, err := crypt.Fcrypt(append([]byte{}, p2...), append([]byte{}, s2...))
+			if err != nil {
+				return "err"
+			}
+			h1, h2 = a, b
+			return hx.Hex(a) + " " + hx.Hex(b) // a is read only now, after the second call
+		})
+		label := "retain"
+		if out == "PANIC" || out == "TIMEOUT" {
+			label = "retain:" + strings.ToLower(out)
+		}
+		idx = run.Op(line, out, label, nontrivial)
+		if h1 != nil && !bytes.Equal(h1, snap1) {
+			run.Fail(idx, "alias:retained-hash-changed", fmt.Sprintf("h1 := Fcrypt(%q, %q) was %q; after Fcrypt(%q, %q) = %q the retained h1 reads %q",
+				p1, s1, snap1, p2, s2, h2, h1))
+		}
+		if h1 != nil && alphaSalt(s1) {
+			if want := libcCrypt(p1, s1); string(h1[:min(13, len(h1))]) != want {
+				run.Fail(idx, "alias:retained-hash-changed", fmt.Sprintf("retained Fcrypt(%q, %q) reads %q after a second call, libc crypt(3) = %q", p1, s1, h1, want))
+			}
+		}
+		return
+	case "checkfc":
+		if len(ws) != 5 || (ws[4] != "accept" && ws[4] != "reject") {
+			return bad()
+		}
+		p, s, q := hx.UnHex(ws[1]), hx.UnHex(ws[2]), hx.UnHex(ws[3])
+		var h, snap []byte
+		out = hx.Call(func() string {
+			a, err := crypt.Fcrypt(append([]byte{}, p...), append([]byte{}, s...))
+			if err != nil {
+				return "err"
+			}
+			h, snap = a, append([]byte{}, a...)
+			b, err := cmbbs.CheckPasswd(a, append([]byte{}, q...)) // the slice as returned, not a copy
+			if err != nil {
+				return "err"
+			}
+			if b {
+				return "true"
+			}
+			return "false"
+		})
+		idx = run.Op(line, out, "checkfc:"+ws[4]+":"+out, nontrivial)
+		if out == "PANIC" || out == "TIMEOUT" || out == "err" {
+			if alphaSalt(s) {
+				run.Fail(idx, "crash:checkpasswd", fmt.Sprintf("CheckPasswd(Fcrypt(%q, %q), %q): %s %s", p, s, q, out, hx.LastPanic))
+			}
+			return
+		}
+		if ws[4] == "reject" && out != "false" {
+			run.Fail(idx, "check:wrong-key-accepted", fmt.Sprintf("h := Fcrypt(%q, %q); CheckPasswd(h, %q) = %s, but the effective keys differ", p, s, q, out))
+		}
+		if ws[4] == "accept" && out != "true" {
+			run.Fail(idx, "check:own-hash-rejected", fmt.Sprintf("h := Fcrypt(%q, %q); CheckPasswd(h, %q) = %s, but the effective keys are equal", p, s, q, out))
+		}
+		if h != nil && !bytes.Equal(h, snap) {
+			run.Fail(idx, "alias:retained-hash-changed", fmt.Sprintf("h := Fcrypt(%q, %q) was %q; after CheckPasswd(h, %q) it reads %q", p, s, snap, q, h))
+		}
+		return
+	case "conc":
+		if len(ws) != 3 {
+			return bad()
+		}
+		n, e1 := strconv.Atoi(ws[1])
+		sd, e2 := strconv.ParseUint(ws[2], 10, 64)
+		if e1 != nil || e2 != nil || n < 1 || n > 4096 {
+			return bad()
+		}
+		rr := hx.NewRand(sd)
+		type job struct {
+			p, s []byte
+			want string
+		}
+		jobs := make([]job, n)
+		for i := range jobs {
+			jobs[i].p, jobs[i].s = genKeyPw(rr), genSalt(rr)
+			jobs[i].want = libcCrypt(jobs[i].p, jobs[i].s) // sequentially: the libc wrapper keeps one crypt_data
+		}
+		badCh := make(chan string, n)
+		var wg sync.WaitGroup
+		for i := range jobs {
+			wg.Add(1)
+			go func(j job) {
+				defer wg.Done()
+				defer func() {
+					if e := recover(); e != nil {
+						badCh <- fmt.Sprintf("panic in Fcrypt(%q, %q): %v", j.p, j.s, e)
+					}
+				}()
+				h, _ := crypt.Fcrypt(j.p, j.s)
+				for k := 0; k < 3; k++ {
+					runtime.Gosched()
+				}
+				if len(h) != 14 || string(h[:13]) != j.want {
+					badCh <- fmt.Sprintf("goroutine kept h := Fcrypt(%q, %q); after yielding it reads %q, libc crypt(3) = %q", j.p, j.s, h, j.want)
+				}
+			}(jobs[i])
+		}
+		wg.Wait()
+		close(badCh)
+		out = "done"
+		idx = run.Op(line, out, "conc", nontrivial)
+		if msg, ok := <-badCh; ok {
+			run.Fail(idx, "alias:retained-hash-changed", msg)
 		}
 		return
 	case "gen":
@@ -413,6 +546,7 @@ func main() {
 		"salts: every alphabet character at either position (quick), all 64^2 pairs (thorough), 13-char hashes as salt; " +
 		"effective-key variants (all 56 single-bit flips of sampled 8-byte keys, high-bit flips, bytes after the 8th / after a NUL) tagged " +
 		"accept/reject from the property's own reading; GenPasswd under rand.Seed incl. seeds whose salt bytes are 0; libc-made hashes; " +
+		"purity: retain (a hash kept across a second Fcrypt), checkfc (CheckPasswd on the slice Fcrypt returned), conc (goroutines keeping their hash across a yield); " +
 		"malformed stream: salts of length 0/1, every byte value 0..255 at either salt position, random salts, expected hashes of any " +
 		"length/bytes, empty password. distinct = distinct op lines; nontrivial = reaches the DES core (no panic expected)"
 
@@ -574,6 +708,42 @@ func main() {
 	}
 	// both salt bytes 0 (one seed in 16384)
 	gen(seedWith(int64(r.U64()>>1), func(n int) bool { return n&0x7f == 0 && (n>>8)&0x7f == 0 }), []byte("both-nul"))
+
+	// I. purity: a returned hash stays what it was while later calls run (no shared output buffer)
+	nI := 300
+	if th {
+		nI = 5000
+	}
+	for i := 0; i < nI; i++ {
+		p1, p2 := genPw(r), genPw(r)
+		s1, s2 := genSalt(r), genSalt(r)
+		switch i % 4 {
+		case 1:
+			s2 = s1
+		case 2:
+			p2 = variant(r, p1)
+		case 3:
+			p1, p2 = genKeyPw(r), genKeyPw(r)
+		}
+		exec("retain "+hx.Hex(p1)+" "+hx.Hex(s1)+" "+hx.Hex(p2)+" "+hx.Hex(s2), true)
+		p := genKeyPw(r)
+		if i%3 == 0 {
+			p = genPw(r)
+		}
+		q := variant(r, p)
+		if i%5 == 0 {
+			q = genKeyPw(r)
+		}
+		exec("checkfc "+hx.Hex(p)+" "+hx.Hex(genSalt(r))+" "+hx.Hex(q)+" "+wantFor(p, q), true)
+		exec("checkfc "+hx.Hex(p)+" "+hx.Hex(genSalt(r))+" "+hx.Hex(p)+" accept", true)
+	}
+	nC := 3
+	if th {
+		nC = 40
+	}
+	for i := 0; i < nC; i++ {
+		exec(fmt.Sprintf("conc %d %d", 64+r.Intn(64), r.U64()>>1), true)
+	}
 
 	// H. malformed stream (recorded and compared with the model; outside the property's salt domain, not judged)
 	gen(1, nil)
